@@ -69,12 +69,32 @@ CHECKS = {
          "Trusted: the harness's mirror of the parameter types the generator declares for each IDL type (needed to write argument expressions). Interfaces are non-recursive and collision-free.", "4 C15"),
 }
 
+# sentences appended to the level text of a check (what later rounds added)
+EXTRA = {
+ "C01": "Growth-size frames come valid, as garbage bytes, and as undecodable but valid UTF-8 made of three-byte characters at each of the three alignments (unbalanced JSON / a JSON array).",
+ "C02": "A phase with the production limit (child process of the main build) hands 4 KiB .. 1 MiB to the transport in one flush - one below, at, one above every power of two - built from one large message, hundreds of small ones and mixtures.",
+ "C04": "Which errors a type recognises is decided from the reply's JSON value alone (declared name + exactly the variant's fields), not with the library's decoders; every base frame is also extended by a single unknown member.",
+ "C06": "A sweep of large chains (16 KiB .. 200 KB, thorough 3 MB, built in three ways, kinds rotating) checks the one-write clause far beyond the buffer's growth step.",
+ "C07": "The same guarantee over the transports zlink ships: a child process (`sockets c07-child`) runs real socket pairs with zlink-tokio and zlink-smol where the schedule may drop the pending receive future at any of its first 8..14 steps.",
+ "C09": "Undecodable frames also come long and non-ASCII: ~700 bytes of three-byte characters at each alignment (unbalanced JSON, unknown method, wrong-typed parameters) and a call whose string holds bytes that are not UTF-8.",
+ "C10": "A child process (`sockets c10-child`) runs a service whose reply streams are the library's own notified::State / notified::Once (zlink-tokio and zlink-smol) behind the real Server::run: bursts of up to 12 state changes while clients are subscribed, one-shot streams with a call pipelined behind them.",
+ "C11": "The peer pads every reply with 0, 1 or 3 extra NUL bytes; the listed finding is keyed to a read that follows a rewind of the connection's cursors, any other overwrite is reported.",
+ "C12": "Arguments spelled as raw identifiers (r#type ...) are part of the corpus.",
+ "C13": "Comment-texts phases put each of seven comment texts (incl. texts that look like IDL: brackets before / after a colon, a colon or bracket alone, keywords) on every commentable position.",
+ "C14": "Comment-texts phases put each of seven comment texts (incl. texts that look like IDL) on every commentable position, also through the GetInterfaceDescription exchange.",
+ "C15": "Interface org.edge.nested has custom types that refer to other custom types: a leaf per value kind, a wrapper per way of referring (plain, ?, [], [string]), two more levels on top, used as inputs, outputs and error fields.",
+ "C18": "A sizes phase has waiting calls of 350 bytes and 5 KB (the receive buffer has to grow while the flood goes on) and flooders with calls of mixed sizes.",
+ "C19": "Listeners: {bound, inherited descriptor in blocking mode, inherited descriptor in non-blocking mode} x 1..3 clients x for each client whether accept is polled before the client connects (must come back pending, then complete) or after, traffic both ways on every accepted connection.",
+}
+
 NOT_YET = {
 }
 
 def main():
     checks = []
     for pid, (engine, technique, text, note, ref) in sorted(CHECKS.items()):
+        if pid in EXTRA:
+            text = text + " " + EXTRA[pid]
         checks.append({
             "property_id": pid,
             "quick_cmd": f"./vcheck {pid} quick",
